@@ -323,6 +323,26 @@ SetCellsProp(op) ==     \* formula or cached flag: clear_obj(cells)
     /\ last' = [n |-> <<>>, res |-> 0, tb |-> <<>>, fx |-> <<>>, t |-> FALSE]
     /\ UNCHANGED <<stack, refstack, rolled, mode, exc>>
 
+\* del model.<space> (BaseSpaceImpl.on_delete, space.py:1556-1568): every value of the
+\* cells of the removed spaces goes, inputs included, with its dependents; so do the
+\* values that reached a reference of the removed spaces -- or a model-level reference
+\* through any space -- by attribute access (clear_ref_referrers)
+DelSpace(op) ==
+    /\ Idle /\ op.op = "del_space" /\ Record(op)
+    /\ LET gone == Subtree(D, op.p)
+           keep == D.sp \ gone
+           D2 == KillDangling([D EXCEPT !.sp = keep,
+                    !.bases = [t \in keep |-> SelectSeq(D.bases[t], LAMBDA b : b \notin gone)],
+                    !.cells = Drop(@, gone), !.refs = Drop(@, gone), !.span = Drop(@, gone),
+                    !.pf = Drop(@, gone),
+                    !.inp = Drop(@, {n \in DOMAIN @ : n[1] \in gone})])
+           seeds == {n \in tgn : n[1] \in gone}
+                    \cup UNION {AttrReferrers(<<t, r>>) : t \in gone, r \in UNION {DOMAIN D.refs[u] : u \in gone}}
+                    \cup UNION {AttrReferrers(<<<<>>, g>>) : g \in DOMAIN D.grefs} IN
+       ClearNodesD(seeds, D2)
+    /\ last' = [n |-> <<>>, res |-> 0, tb |-> <<>>, fx |-> <<>>, t |-> FALSE]
+    /\ UNCHANGED <<stack, refstack, rolled, mode, exc>>
+
 -----------------------------------------------------------------------------
 \* which operations of the vocabulary make sense in the current definitions
 Applicable(op) ==
@@ -331,11 +351,13 @@ Applicable(op) ==
             /\ (op.op \in {"set_value", "clear_at"} => D.cells[op.c[1]][op.c[3]].cached)
       [] op.op = "set_ref" ->
             IF Len(op.s) = 0 THEN ~(op.n \in DOMAIN D.grefs /\ D.grefs[op.n].v = op.v)
-            ELSE ~(op.n \in DOMAIN D.refs[op.s] /\ D.refs[op.s][op.n].v = op.v)
+            ELSE op.s \in D.sp /\ ~(op.n \in DOMAIN D.refs[op.s] /\ D.refs[op.s][op.n].v = op.v)
       [] op.op = "del_ref" ->
-            IF Len(op.s) = 0 THEN op.n \in DOMAIN D.grefs ELSE op.n \in DOMAIN D.refs[op.s]
-      [] op.op = "set_formula" -> op.c \in DOMAIN D.cells[op.s] /\ D.cells[op.s][op.c].f # op.f
-      [] op.op = "set_cached"  -> op.c \in DOMAIN D.cells[op.s] /\ D.cells[op.s][op.c].cached # op.b
+            IF Len(op.s) = 0 THEN op.n \in DOMAIN D.grefs
+            ELSE op.s \in D.sp /\ op.n \in DOMAIN D.refs[op.s]
+      [] op.op = "set_formula" -> op.s \in D.sp /\ op.c \in DOMAIN D.cells[op.s] /\ D.cells[op.s][op.c].f # op.f
+      [] op.op = "set_cached"  -> op.s \in D.sp /\ op.c \in DOMAIN D.cells[op.s] /\ D.cells[op.s][op.c].cached # op.b
+      [] op.op = "del_space"   -> op.p \in D.sp
       [] OTHER -> FALSE
 
 Init ==
@@ -348,7 +370,7 @@ Init ==
 Next ==
     \/ \E i \in 1..Len(AllOps) : LET op == AllOps[i] IN Applicable(op) /\ (
           TopCall(op) \/ SetValue(op) \/ ClearAt(op) \/ ClearCells(op) \/ SetRef(op)
-          \/ DelRef(op) \/ SetCellsProp(op))
+          \/ DelRef(op) \/ SetCellsProp(op) \/ DelSpace(op))
     \/ (Step /\ UNCHANGED hist)
     \/ Unwind
 
